@@ -487,7 +487,7 @@ def run_refill(case):
 
 @st.composite
 def many_states_case(draw):
-    return {"n": draw(st.sampled_from([511, 512, 513, 600, 700, 1025])), "seed": draw(st.integers(0, 2 ** 31 - 1)),
+    return {"n": draw(st.sampled_from([150, 200, 255, 511, 512, 513, 600, 700, 1025])), "seed": draw(st.integers(0, 2 ** 31 - 1)),
             "lag": draw(st.sampled_from([1.0, 1.0, 0.5, 20])), "container": draw(st.sampled_from(["ndarray", "ndarray_F", "csr"])),
             "cols": draw(st.lists(st.integers(0, 10 ** 6), min_size=2, max_size=4))}
 
@@ -505,7 +505,23 @@ def run_many_states(case):
     A = _mat(A, n, "all-pairs mfpts")
     cols = sorted(set([0, n - 1, n - 2, 511 % n, 512 % n] + [c % n for c in case["cols"]]))
     for j in cols:
-        single = _vec(_quiet(tpt.mfpts, R.to_container(T, case["container"]), sinks=[j], lagtime=lag), n, "mfpts(sinks=[j])")
+        # the sink id in whatever integer type the caller's state list has (the narrowest one that holds it, every
+        # second time): an id is an id
+        jj = [j]
+        if (j + case["seed"]) % 2 == 0:
+            jj = np.array([j], dtype=np.uint8 if j < 256 else np.uint16 if j < 65536 else np.int64)
+        single = _vec(_quiet(tpt.mfpts, R.to_container(T, case["container"]), sinks=jj, lagtime=lag), n, "mfpts(sinks=[j])")
+        if j % 3 == 0:
+            src = (j + n // 2) % n
+            kk = np.array([j], dtype=np.uint8) if j < 256 else np.array([j], dtype=np.uint16)
+            q = _vec(_quiet(tpt.committors, R.to_container(T, case["container"]), np.array([src], dtype=kk.dtype) if src < 256 or kk.dtype != np.uint8 else [src], kk), n, "committors")
+            require(abs(q[j] - 1.0) <= 1e-12 and abs(q[src]) <= 1e-12, "committor is not 1 on the sink / 0 on the source "
+                    "(state ids given in a narrow integer type)", sink=j, source=src, q_sink=float(q[j]), q_source=float(q[src]),
+                    id_dtype=str(kk.dtype))
+            free = np.array([i for i in range(n) if i not in (j, src)])
+            res_q = q[free] - T[free] @ q
+            require(float(np.max(np.abs(res_q))) <= 1e-9, "committor violates the first-step equation (hundreds of states, "
+                    "narrow id type)", worst=float(np.max(np.abs(res_q))), sink=j, source=src)
         col = A[:, j]
         scale = max(float(lag), float(np.max(np.abs(single))))
         require(float(np.max(np.abs(col - single))) <= 1e-6 * scale, "all-pairs column differs from the single-sink computation "
@@ -697,7 +713,7 @@ CLAUSES = [
            doc="tprob, sources, sinks, populations are left as passed"),
     Clause("second_call_refilled", refill_case(), run_refill, quick=600, thorough=5000,
            doc="call, refill the same container object in place with another chain, call again: values are those of the new chain"),
-    Clause("allpairs_many_states", many_states_case(), run_many_states, quick=8, thorough=80,
+    Clause("allpairs_many_states", many_states_case(), run_many_states, quick=12, thorough=80,
            doc="511..1025 states: columns 0, 511, 512, n-2, n-1 and drawn ones of the all-pairs table == single-sink solves"),
     Clause("medium_chains", medium_case(), run_medium, quick=200, thorough=3000,
            doc="17..40 states (seeded): sink sets of half the states and more; float32 dyadic matrices in every container; "
